@@ -428,4 +428,11 @@ the source text rather than of a schedule. -/
 theorem c15_lock_discipline :
     FV.Locks.ok [1, 2, 3] FV.Generated.Locks.mutexTags FV.Generated.Locks.facts = true := by decide +kernel
 
+/-- **No lock-order cycle** among the mutexes of lib/go (all tags): `m → m'` when some function acquires `m'`,
+itself or through callees, while it holds `m`; no mutex reaches itself — the two-lock deadlock is excluded on
+the regenerated facts (today the only edges lead to the logger's mutex). -/
+theorem c15_lock_order_acyclic :
+    FV.Locks.acyclic [1, 2, 3, 4, 5, 6, 7, 8] FV.Generated.Locks.mutexTags FV.Generated.Locks.facts = true := by
+  decide +kernel
+
 end FV.C15
